@@ -438,13 +438,19 @@ func propC15(c *Ctx) {
 			o.Paths++
 			o.Facts += p.NFacts()
 			lh := "(collections.Item[V]).Get(hv.lastHeight, ctx).0"
+			// no stored height yet (Get answered not-found): the stored height is the zero default,
+			// whether it is read from Get's zero result or written as the literal 0
+			notFound := p.HasFact(len(p.Events), func(a *Term, pol bool) bool {
+				return pol && a.Op == "call" && a.Name == "errors.Is" && len(a.Args) == 2 && a.Args[0].Key() == "(collections.Item[V]).Get(hv.lastHeight, ctx).1" && strings.HasSuffix(a.Args[1].Key(), "collections.ErrNotFound")
+			})
+			isStored := func(t *Term) bool { return t.Key() == lh || (notFound && t.IsConst() && t.Name == "0") }
 			for i := range p.Events {
 				ev := &p.Events[i]
 				if ev.Kind != EvCall || !(strings.HasSuffix(ev.Call.Name, "HostValidatorStore).SetValidator") || strings.HasSuffix(ev.Call.Name, "HostValidatorStore).DeleteAllValidators") || strings.HasSuffix(ev.Call.Name, "HostValidatorStore).SetLastHeight")) {
 					continue
 				}
 				o.Sites++
-				rel, n := p.Relation(i, keyIs(lh), keyIs("height"))
+				rel, n := p.Relation(i, isStored, keyIs("height"))
 				if n == 0 || rel != rLT {
 					o.Fail(c.evPos(ev), methodOf(ev.Call.Name)+" reachable with relation(stored height, new height) = "+relString(rel)+"; want {<}", c.Dump(p, i))
 				}
@@ -482,7 +488,7 @@ func propC15(c *Ctx) {
 				}
 			}
 			if p.OK() && !p.Panic {
-				rel, n := p.Relation(len(p.Events), keyIs(lh), keyIs("height"))
+				rel, n := p.Relation(len(p.Events), isStored, keyIs("height"))
 				sl := p.Find(func(ev *Event) bool {
 					return ev.Kind == EvCall && strings.HasSuffix(ev.Call.Name, "HostValidatorStore).SetLastHeight")
 				})
